@@ -407,8 +407,35 @@ pub struct Area {
     pub exec: fn(&[&str]) -> (String, String),
 }
 
-/// Seconds after which a single case counts as a hang of the implementation.
-pub const CASE_TIMEOUT_S: u64 = 30;
+/// CPU seconds (of the worker thread, not wall clock: the verdict must not depend on how loaded the
+/// machine is) after which a single case counts as a hang of the implementation, and the wall-clock
+/// backstop for a case that blocks without using the CPU.
+pub const CASE_TIMEOUT_S: u64 = 60;
+pub const CASE_WALL_TIMEOUT_S: u64 = 1800;
+
+#[repr(C)]
+struct Timespec {
+    tv_sec: i64,
+    tv_nsec: i64,
+}
+extern "C" {
+    fn pthread_self() -> usize;
+    fn pthread_getcpuclockid(thread: usize, clock_id: *mut i32) -> i32;
+    fn clock_gettime(clock_id: i32, tp: *mut Timespec) -> i32;
+}
+
+/// CPU time (user + system, milliseconds) consumed so far by the thread `tid` (a pthread_t of a
+/// thread that is still alive: the workers of run_cases never exit).
+fn thread_cpu_ms(tid: usize) -> Option<u64> {
+    let mut cid = 0i32;
+    let mut ts = Timespec { tv_sec: 0, tv_nsec: 0 };
+    unsafe {
+        if pthread_getcpuclockid(tid, &mut cid) != 0 || clock_gettime(cid, &mut ts) != 0 {
+            return None;
+        }
+    }
+    Some(ts.tv_sec as u64 * 1000 + ts.tv_nsec as u64 / 1_000_000)
+}
 
 pub fn run_cases(area: &Area, cmds: &[String], dir: &str, dist: &Dist) {
     use std::sync::atomic::{AtomicU64, AtomicUsize, Ordering};
@@ -425,23 +452,35 @@ pub fn run_cases(area: &Area, cmds: &[String], dir: &str, dist: &Dist) {
     let done = Arc::new(AtomicUsize::new(0));
     let exec = area.exec;
     let now = || std::time::SystemTime::now().duration_since(std::time::UNIX_EPOCH).unwrap().as_secs();
-    // per worker: (case index + 1, start time); 0 = idle/finished
-    let slots: Arc<Mutex<Vec<Arc<(AtomicUsize, AtomicU64)>>>> = Arc::new(Mutex::new(Vec::new()));
+    // per worker: (case index + 1, start time, pthread id, thread CPU ms at the start of the case); 0 = idle/finished
+    let slots: Arc<Mutex<Vec<Arc<(AtomicUsize, AtomicU64, AtomicUsize, AtomicU64)>>>> = Arc::new(Mutex::new(Vec::new()));
     let spawn_worker = {
         let (cmds, results, next, done, slots) = (cmds.clone(), results.clone(), next.clone(), done.clone(), slots.clone());
         move || {
-            let slot = Arc::new((AtomicUsize::new(0), AtomicU64::new(0)));
+            let slot = Arc::new((AtomicUsize::new(0), AtomicU64::new(0), AtomicUsize::new(0), AtomicU64::new(0)));
             slots.lock().unwrap().push(slot.clone());
             let (cmds, results, next, done) = (cmds.clone(), results.clone(), next.clone(), done.clone());
             std::thread::Builder::new().stack_size(64 << 20).spawn(move || loop {
                 let i = next.fetch_add(1, Ordering::SeqCst);
                 if i >= cmds.len() {
                     slot.0.store(0, Ordering::SeqCst);
-                    break;
+                    // never exit: the watchdog may still hold this thread's id
+                    loop {
+                        std::thread::park();
+                    }
                 }
+                let tid = unsafe { pthread_self() };
+                slot.2.store(tid, Ordering::SeqCst);
+                slot.3.store(thread_cpu_ms(tid).unwrap_or(0), Ordering::SeqCst);
                 slot.1.store(now(), Ordering::SeqCst);
                 slot.0.store(i + 1, Ordering::SeqCst);
                 let parts: Vec<&str> = cmds[i].split(' ').collect();
+                if i == 0 && std::env::var("LZVERIF_SELFTEST_HANG").is_ok() {
+                    // self-test of the watchdog: the first case spins forever
+                    loop {
+                        std::hint::black_box(0);
+                    }
+                }
                 let r = match catch_unwind(AssertUnwindSafe(|| exec(&parts))) {
                     Ok(r) => r,
                     Err(_) => ("HARNESS-PANIC".to_string(), "FAIL harness panic".to_string()),
@@ -463,12 +502,22 @@ pub fn run_cases(area: &Area, cmds: &[String], dir: &str, dist: &Dist) {
         let t = now();
         let stuck: Vec<usize> = slots.lock().unwrap().iter().filter_map(|s| {
             let c = s.0.load(Ordering::SeqCst);
-            if c > 0 && t.saturating_sub(s.1.load(Ordering::SeqCst)) > CASE_TIMEOUT_S { s.0.store(0, Ordering::SeqCst); Some(c - 1) } else { None }
+            if c == 0 {
+                return None;
+            }
+            let cpu = thread_cpu_ms(s.2.load(Ordering::SeqCst)).unwrap_or(0).saturating_sub(s.3.load(Ordering::SeqCst));
+            // the slot may have moved on to another case in between: then it is re-examined next round
+            if s.0.load(Ordering::SeqCst) == c && (cpu > CASE_TIMEOUT_S * 1000 || t.saturating_sub(s.1.load(Ordering::SeqCst)) > CASE_WALL_TIMEOUT_S) {
+                s.0.store(0, Ordering::SeqCst);
+                Some(c - 1)
+            } else {
+                None
+            }
         }).collect();
         for i in stuck {
             let mut g = results[i].lock().unwrap();
             if g.is_none() {
-                *g = Some(("TIMEOUT".to_string(), format!("FAIL the call did not return within {CASE_TIMEOUT_S} s (hang)")));
+                *g = Some(("TIMEOUT".to_string(), format!("FAIL the call did not return within {CASE_TIMEOUT_S} s of CPU time (hang)")));
                 done.fetch_add(1, Ordering::SeqCst);
                 drop(g);
                 spawn_worker();
